@@ -272,7 +272,12 @@ func Convert(value any, typ reflect.Type) (any, error) { //nolint: gocyclo
 		case reflect.Map:
 			result := reflect.MakeSlice(typ, 0, rv.Len())
 			for _, key := range SortedMapKeys(rv) {
-				item, err := convertElement(rv.MapIndex(key).Interface(), typ.Elem())
+				ev := rv.MapIndex(key)
+				if !ev.IsValid() {
+					// the entry of a NaN key cannot be looked up (loops skip it too)
+					continue
+				}
+				item, err := convertElement(ev.Interface(), typ.Elem())
 				if err != nil {
 					return nil, err
 				}
